@@ -7,9 +7,20 @@
 (* conformance check (Conf_Node) and by the model-checking instances       *)
 (* (MC_Node) alike.                                                        *)
 (***************************************************************************)
-EXTENDS Node
+EXTENDS Node, Json, IOUtils
 
 ToSet(s) == {s[i] : i \in 1..Len(s)}
+
+\* instance parameters from the environment (one configuration per TLC run): cfg lines `NodeCfg <- CNodeCfg` etc.
+P == JsonDeserialize(IOEnv.PARAMS)       \* [node, peerOrder, peers, appOrder, apps, maxConn, pinned]
+CNodeCfg == P.node
+CPeerOrder == P.peerOrder
+CPeerCfg == [p \in ToSet(P.peerOrder) |-> P.peers[p]]
+CAppOrder == P.appOrder
+CAppCfg == [a \in ToSet(P.appOrder) |-> [P.apps[a] EXCEPT !.peers = ToSet(@), !.realms = ToSet(@)]]
+CMaxConn == P.maxConn
+CPinned == ToSet(P.pinned)
+
 FromJson(m) == [m EXCEPT !.auth = ToSet(@), !.acct = ToSet(@)]
 RECURSIVE MsgsFromJson(_)
 MsgsFromJson(ms) == IF ms = <<>> THEN <<>> ELSE <<FromJson(Head(ms))>> \o MsgsFromJson(Tail(ms))
